@@ -284,7 +284,7 @@ Proof.
   intros A D W Nm G.
   unfold acceptedb in A. repeat (apply andb_true_iff in A as [A ?]).
   rename A into Lt, H5 into Ia, H4 into Ic, H3 into Np, H2 into Rp, H1 into Lp, H0 into Lb, H into Gx.
-  unfold git_domainb, simple_domainb, labels_okb in D. repeat (apply andb_true_iff in D as [D ?]).
+  unfold git_domainb, base_domainb, labels_okb in D. repeat (apply andb_true_iff in D as [D ?]).
   rename D into Ol, H1 into Rl, H0 into Ot, H into Cn.
   unfold names_okb, placeholder_nameb, padded_nameb in Nm.
   apply andb_true_iff in Nm as [Pl Pd]. apply negb_true_iff in Pl. apply negb_true_iff in Pd.
@@ -632,11 +632,12 @@ Qed.
 Theorem simple_read_write c :
   simple_domainb c = true -> commit_from_proto (commit_to_proto c) = ROk c.
 Proof.
-  unfold simple_domainb, labels_okb. intro D. repeat (apply andb_true_iff in D as [D ?]).
-  rename D into Ol, H0 into Rl, H into Ot.
+  unfold simple_domainb, base_domainb, labels_okb, labels_canonb. intro D.
+  apply andb_true_iff in D as [D Cn]. apply andb_true_iff in D as [D Ot].
+  apply andb_true_iff in D as [Ol Rl].
   destruct c as [ps pr rt ls ci de au co].
   cbn [c_labels c_root_tree] in *.
-  unfold commit_from_proto, commit_to_proto.
+  unfold commit_from_proto, commit_to_proto, labels_from_vec.
   cbn [pc_parents pc_predecessors pc_root_tree pc_labels pc_change_id pc_description pc_author
        pc_committer c_parents c_predecessors c_root_tree c_labels c_change_id c_description
        c_author c_committer].
@@ -644,7 +645,8 @@ Proof.
   destruct (is_resolved ls) eqn:R.
   - cbn in Rl. apply lb_eqb_spec in Rl. subst ls. reflexivity.
   - replace (is_nil_b ls) with false by (destruct ls; [discriminate|reflexivity]).
-    cbn [negb andb]. rewrite <- Nat.negb_odd, Ol. reflexivity.
+    cbn [negb andb orb] in *. rewrite <- Nat.negb_odd, Ol. cbn [negb]. rewrite R.
+    apply negb_true_iff in Cn. rewrite Cn. reflexivity.
 Qed.
 
 Lemma c_sig_ok : codec_ok c_sig.
